@@ -40,7 +40,7 @@ package masswallet
 // txWF: a decoded transaction has no nil input or output entries (wire decoding allocates every entry)
 //@ define txWF(t) = (t != nil && (forall qi_ int :: 0 <= qi_ && qi_ < len(t.TxIn) ==> t.TxIn[qi_] != nil) && (forall qo_ int :: 0 <= qo_ && qo_ < len(t.TxOut) ==> t.TxOut[qo_] != nil))
 //@ define recWF(r) = (r != nil && (forall qo_ int :: 0 <= qo_ && qo_ < len(r.MsgTx.TxOut) ==> r.MsgTx.TxOut[qo_] != nil))
-//@ define wmWF(w) = (w != nil && w.db != nil && w.chainFetcher != nil && w.chainParams != nil && w.ksmgr != nil && w.utxoStore != nil && w.txStore != nil)
+//@ define wmWF(w) = (w != nil && w.db != nil && w.chainFetcher != nil && w.chainParams != nil && w.ksmgr != nil && w.utxoStore.VerifWF() && w.txStore != nil)
 //@ define recsWF(m) = (forall qk_ string :: has(m, qk_) ==> recWF(valAt[*txmgr.TxRecord](m, qk_)))
 //@ define outsWF(t) = (t != nil && (forall qo_ int :: 0 <= qo_ && qo_ < len(t.TxOut) ==> t.TxOut[qo_] != nil))
 //@ define cacheWF(m) = (forall qk_ string :: has(m, qk_) ==> outsWF(valAt[*wire.MsgTx](m, qk_)))
@@ -50,7 +50,7 @@ package masswallet
 //@   requires h != nil && wmWF(h.walletMgr) && h.mempool != nil && txWF(tx)
 //@   requires blockMeta != nil ==> recInCurBlk != nil
 //@   requires recsWF(recInCurBlk)
-//@   modifies recInCurBlk, h.mempool, rollbacks()
+//@   modifies recInCurBlk, h.mempool, rollbacks(), gmap("iterkey")
 //@   expand db.View
 //@   dead returns 1
 //@   at "cache[txIn.PreviousOutPoint.Hash] = prevTx" assert outsWF(prevTx)
